@@ -776,6 +776,87 @@ def oracle_file(F, r, renderings):
     return fails, n
 
 
+def _canon_rules(eng):
+    return [{'name': x.name, 'merchant': x.merchant, 'category': x.category, 'subcategory': x.subcategory, 'tags': sorted(x.tags),
+             'priority': x.priority, 'match': x.match_expr} for x in eng.rules]
+
+
+def file_loader_failures(r, n):
+    """The FILE-level readers (load_merchants_file, get_all_rules, get_transforms, load_sections) read what the file SAYS NOW: one path
+    is rewritten several times - other valid content, the first content again, a malformed revision - every revision padded with inert
+    comment lines to the same byte length and given the same (pinned) modification time, in one process; after every write each reader
+    must answer exactly what parsing that text answers (`parse_merchants` / `parse_sections`: the same rules, or the same rejection)."""
+    import shutil
+    import tempfile
+    from pathlib import Path
+    from tally import merchant_engine as ME, merchant_utils as MU, section_engine as SE
+    fails = []
+    d = tempfile.mkdtemp(prefix='tvc17f_')
+    try:
+        for i in range(n):
+            kind = 'm' if i % 3 else 'v'
+            gen = gen_mfile if kind == 'm' else gen_vfile
+            texts = []
+            for _ in range(3):
+                F = gen(r, nsec=r.choice([1, 2, 3]))
+                texts.append(render(F, [], r)[0])
+            bad = texts[1].replace('match:', 'mtch:', 1) if kind == 'm' else texts[1].replace('filter:', 'fltr:', 1)
+            revs = [texts[0], texts[1], texts[0], bad, texts[2]]
+            size = max(len(t.encode('utf-8')) for t in revs) + 4
+            padded = []
+            for t in revs:
+                gap = size - len(t.encode('utf-8'))
+                padded.append(t + ('\n#' + 'x' * (gap - 3) + '\n' if gap >= 3 else ' ' * gap))
+            path = os.path.join(d, f'f{i % 4}.rules')
+            mode = r.choice(['first_match', 'most_specific'])
+            for k, text in enumerate(padded):
+                with open(path, 'w', encoding='utf-8', newline='') as fh:
+                    fh.write(text)
+                os.utime(path, (1700000000, 1700000000))
+                want = impl_parse(kind, text)
+                got = {}
+                if kind == 'm':
+                    want_rules = _canon_rules(ME.parse_merchants(text, mode)) if 'ok' in want else None
+                    try:
+                        got['load_merchants_file'] = {'ok': _canon_rules(ME.load_merchants_file(Path(path), mode))}
+                    except ME.MerchantParseError as e:
+                        got['load_merchants_file'] = {'err': 'parse', 'line': e.line_number}
+                    try:
+                        rules = MU.get_all_rules(path, match_mode=mode)
+                        eng = MU.get_cached_engine()
+                        got['get_all_rules'] = {'ok': _canon_rules(eng)} if eng is not None else {'ok': None, 'tuples': len(rules)}
+                    except ME.MerchantParseError as e:
+                        got['get_all_rules'] = {'err': 'parse', 'line': e.line_number}
+                    finally:
+                        MU.clear_engine_cache()
+                    exp = {'ok': want_rules} if 'ok' in want else {'err': 'parse', 'line': want.get('line')}
+                    if 'ok' in want:
+                        try:
+                            tr = MU.get_transforms(path, match_mode=mode)
+                            if [list(x) for x in tr] != want['ok']['transforms']:
+                                got['get_transforms'] = [list(x) for x in tr]
+                        except Exception as e:            # noqa
+                            got['get_transforms'] = type(e).__name__
+                        finally:
+                            MU.clear_engine_cache()
+                    wrong = {k2: v for k2, v in got.items() if k2 == 'get_transforms' or v != exp}
+                else:
+                    try:
+                        cfg = SE.load_sections(path)
+                        got['load_sections'] = {'ok': [[s.name, s.filter_expr] for s in cfg.sections]}
+                    except SE.SectionParseError as e:
+                        got['load_sections'] = {'err': 'parse', 'line': e.line_number}
+                    exp = {'ok': [[s['name'], s['filter']] for s in want['ok']['sections']]} if 'ok' in want else {'err': 'parse', 'line': want.get('line')}
+                    wrong = {k2: v for k2, v in got.items() if v != exp}
+                if wrong:
+                    fails.append({'class': 'file:reader-answers-something-other-than-the-file-says', 'kind': 'file', 'file_kind': kind, 'mode': mode,
+                                  'revisions': padded[:k + 1], 'revision': k, 'observed': wrong, 'required (what parsing this revision gives)': exp})
+                    return fails
+    finally:
+        shutil.rmtree(d, ignore_errors=True)
+    return fails
+
+
 def table_checks(ctx):
     """the hand-written character tables against CPython (all code points)"""
     py_space = [c for c in range(0x110000) if chr(c).isspace()]
@@ -812,6 +893,35 @@ def run(ctx):
             f = cmd_oracle(ce.get('label', 'replay'), ce['rules_text'], tuple(ce.get('cmd') or ('up', 'config', '--format', 'summary')))
             if f:
                 fails.append(f)
+        elif ce.get('kind') == 'file':
+            import tempfile, shutil
+            from pathlib import Path
+            from tally import merchant_engine as ME, merchant_utils as MU, section_engine as SE
+            d = tempfile.mkdtemp(prefix='tvc17r_')
+            try:
+                path = os.path.join(d, 'f.rules')
+                last = None
+                for text in ce['revisions']:
+                    with open(path, 'w', encoding='utf-8', newline='') as fh:
+                        fh.write(text)
+                    os.utime(path, (1700000000, 1700000000))
+                    want = impl_parse(ce['file_kind'], text)
+                    try:
+                        if ce['file_kind'] == 'm':
+                            MU.get_transforms(path, match_mode=ce.get('mode', 'first_match')); MU.clear_engine_cache()
+                            MU.get_all_rules(path, match_mode=ce.get('mode', 'first_match')); MU.clear_engine_cache()
+                            last = {'ok': _canon_rules(ME.load_merchants_file(Path(path), ce.get('mode', 'first_match')))}
+                            exp = {'ok': _canon_rules(ME.parse_merchants(text, ce.get('mode', 'first_match')))} if 'ok' in want else {'err': 'parse', 'line': want.get('line')}
+                        else:
+                            last = {'ok': [[x.name, x.filter_expr] for x in SE.load_sections(path).sections]}
+                            exp = {'ok': [[x['name'], x['filter']] for x in want['ok']['sections']]} if 'ok' in want else {'err': 'parse', 'line': want.get('line')}
+                    except (ME.MerchantParseError, SE.SectionParseError) as e:
+                        last = {'err': 'parse', 'line': e.line_number}
+                        exp = {'err': 'parse', 'line': want.get('line')} if 'err' in want else {'ok': '...'}
+                if last != exp:
+                    fails.append(dict(ce, observed=last))
+            finally:
+                shutil.rmtree(d, ignore_errors=True)
         elif 'text' in ce:
             got = impl_parse(ce['kind'], ce['text'])
             if got != ce['required']:
@@ -825,6 +935,7 @@ def run(ctx):
         return ctx.finish()
 
     ints = table_checks(ctx)
+    file_fails = file_loader_failures(r, 40 if ctx.quick else 1500)
     nfiles = 300 if ctx.quick else 4000
     files = []
     # corpus first: the D17 witness file and the reading-note observations
@@ -838,7 +949,8 @@ def run(ctx):
     cases, kinds, labels = [], [], []
     for k, t in corpus:
         cases.append(t); kinds.append(k); labels.append('corpus')
-    prop_fail, evals, nontriv, feat_hist = [], 0, set(), {}
+    prop_fail, evals, nontriv, feat_hist = list(file_fails), 0, set(), {}
+    ctx.notes['file_level_reader_revisions (same path, same size, same mtime)'] = (40 if ctx.quick else 1500) * 5
     # ---- tags lines: closed tags with nested calls / string literals (oracle + correspondence), wild values (correspondence only)
     tag_hist, n_tag_lines = {}, (300 if ctx.quick else 6000)
     for _ in range(n_tag_lines):
